@@ -13,7 +13,7 @@ TYPES = ["", "", "", "INTEGER", "INTEGER", "INTEGER", "INT", "TEXT", "TEXT", "VA
 RARE_TYPES = ["DOUBLE PRECISION", "UNSIGNED BIG INT", "VARYING CHARACTER(255)"]
 COLLS = ["BINARY", "NOCASE", "RTRIM", "nocase", "rtrim", "binary", "NoCase", "Rtrim"]
 COLNAMES = ["a", "b", "c", "d", "e", "f", "g", "id", "name", "val", "rowid", "Oid", "x1", "y_2", "Key2", "\"quoted col\"", "[br col]", "`tick`", "\"select\"",
-            "\"a\"\"q\"", "k", "Z", "\"TEXT\"", "\"é\"", "col_é", "été", "ñ", "Ünï_1", "名前", "\"É\"", "Été", "Ñ", "replace", "Replace", "a\u00a0b", "x\u2003y", "€uro", "naïve"]
+            "\"a\"\"q\"", "k", "Z", "\"TEXT\"", "\"é\"", "col_é", "été", "ñ", "Ünï_1", "名前", "\"É\"", "Été", "Ñ", "replace", "Replace", "a\u00a0b", "x\u2003y", "€uro", "naïve", "\"say \"\"hi\"\" twice\"", "`t``i``ck`"]
 DEFAULTS = ["0", "1", "-1", "+2", "42", "'x'", "''", "'it''s'", "NULL", "0x1F", "123456789012", "-9223372036854775807", "'with space'", "7", "'d'"]
 CHECKS = ["x > 0", "length(x) < 10", "(x)", "x <> 'a'", "x > 0", "x + 1 > 2", "x < 100", "abs(x) > 1"]
 RARE_CHECKS = ["x IN (1,2,3)", "x BETWEEN 1 AND 5", "x LIKE 'a%'", "x IS NOT NULL", "x = 1 OR x = 2", "x >= 1 AND x <= 9"]
